@@ -6,14 +6,15 @@ import common as C
 
 PID = "C14"
 DRIVER = [("C14", "TfPwaV.Model.Topology", "Topology.handle")]
-LEAN_TARGETS = ["TfPwaV.Props.C14"]
-PROP_MODULES = ["TfPwaV.Props.C14"]
-ALL_MODULES = ["TfPwaV.Model.Topology", "TfPwaV.Proofs.Topology", "TfPwaV.Props.C14"]
+LEAN_TARGETS = ["TfPwaV.Props.C14", "TfPwaV.Props.C14N5"]
+PROP_MODULES = ["TfPwaV.Props.C14", "TfPwaV.Props.C14N5a", "TfPwaV.Props.C14N5b", "TfPwaV.Props.C14N5c", "TfPwaV.Props.C14N5"]
+ALL_MODULES = ["TfPwaV.Model.Topology", "TfPwaV.Proofs.Topology", "TfPwaV.Proofs.TopologyDistinct", "TfPwaV.Props.C14",
+               "TfPwaV.Props.C14N5a", "TfPwaV.Props.C14N5b", "TfPwaV.Props.C14N5c", "TfPwaV.Props.C14N5"]
 ASSUMPTIONS = [
     "particles are BaseParticle objects compared by (name, id); names used by the harness contain none of the protocol separators ' ;>|=,#@/[]'",
     "Python str comparison = code-point lexicographic = Lean String '<'; Python sorted on a linear order = the model's insertion sort",
-    "chain-level structure (binary tree, leaf sets, pairwise distinct ids, table round trip) is kernel-decided only for n<=4 on the labelling top=0, finals=1..n (n=5,6 exceed the per-file kernel budget); for n=5..6 (7 thorough) it is checked exhaustively on the real code by the independent oracle of search(); pairwise distinctness for all n is NOT proved (FULL statement kept in Props/C14.lean)",
-    "get_decay_chain (graph -> chain) and from_particles not raising are proved only through the n<=4 kernel evaluation; for all n the theorems are at graph level (count, binary tree, leaf multiset) plus: if from_particles returns, it returns (2n-3)!! chains",
+    "pairwise distinctness of the (2n-3)!! enumerated topologies is proved for EVERY n on the tree model (enumeration_pairwise_distinct: the enumerated graphs are position by position full binary trees whose sets of final-state groupings are pairwise different); the step graph -> chain (get_decay_chain) -> sorted_table -> topology_id, i.e. that the topology_id of the i-th chain IS the grouping set of the i-th tree, is kernel-decided only for n<=5 (labelling top=0, finals=1..n; 1+3+15+105 chains) and otherwise checked exhaustively on the real code for n<=6 (7 thorough) by the independent oracle of search()",
+    "chain-level binary-tree structure, from_particles not raising and the table round trip are kernel-decided for n<=5 only; for all n the theorems are at graph/tree level (count, binary tree, leaf multiset, distinct grouping sets) plus: if from_particles returns, it returns (2n-3)!! chains",
     "get_chains_map is modelled in two variants (assignment with identical=True as found / identical=False after fix_get_chains_map_identical.diff); the harness selects the variant by probing the real code on a fixed group",
     "a cyclic chain makes sorted_table loop forever in Python; the model returns none and the harness never feeds such chains to the real code",
 ]
@@ -624,7 +625,7 @@ def replay(ctx, payload):
 
 
 MANIFEST = {
-    "text": "Lean theorems: for EVERY n>=2 the modelled edge-insertion enumeration yields exactly (2n-3)!! graphs/chains (induction over the insertion sequence), and every enumerated graph is the edge multiset of a full binary tree hanging under the top particle whose leaves are exactly the given finals (all n); topology_same a b <-> the multisets of final-state groupings are permutations of each other, for all chains and both identical flags; topology classes of a group partition its chains (all groups). Kernel-decided for n<=4 (whole enumeration, 1+3+15 chains): from_particles returns, every chain is a binary tree with the given leaves, topology ids pairwise distinct, table round trip. The model is tied to particle.py by exact comparison of the produced lists (order included) for n<=6 (7 thorough) and of every topology function on seeded decay groups.",
-    "note": "Model = TfPwaV.Topology (hand-written mirror of _Chain_Graph / from_particles / sorted_table / from_sorted_table / topology_id / standard_topology / topology_map / topology_structure / get_chains_map). Pairwise distinctness and the chain-level tree statement for n>4 are not proved (statement kept as FULL in Props/C14.lean); they are checked exhaustively on the real code for n<=6 (7 thorough). An independent Python oracle (recursive set partition) checks count, distinctness, leaf sets, topology_same iff equal grouping sets and the class assignment on the real code. Trusted: Lean kernel, standard axioms, harness encoding.",
-    "technique": "Lean 4 proof (induction for all n; decide +kernel over the whole n<=4 enumeration) + exhaustive differential correspondence with the implementation + independent oracle search",
+    "text": "Lean theorems: for EVERY n>=2 the modelled edge-insertion enumeration yields exactly (2n-3)!! graphs/chains (induction over the insertion sequence), and every enumerated graph is the edge multiset of a full binary tree hanging under the top particle whose leaves are exactly the given finals (all n); for pairwise distinct finals these (2n-3)!! trees have pairwise different sets of final-state groupings (all n: removing the last inserted leaf is a left inverse of insertion, insertion on different edges gives different grouping sets); topology_same a b <-> the multisets of final-state groupings are permutations of each other, for all chains and both identical flags; topology classes of a group partition its chains (all groups). Kernel-decided for n<=5 (whole enumeration, 1+3+15+105 chains): from_particles returns, every chain is a binary tree with the given leaves, its topology_id is the grouping set of the corresponding tree, topology ids pairwise distinct, table round trip. The model is tied to particle.py by exact comparison of the produced lists (order included) for n<=6 (7 thorough) and of every topology function on seeded decay groups.",
+    "note": "Model = TfPwaV.Topology (hand-written mirror of _Chain_Graph / from_particles / sorted_table / from_sorted_table / topology_id / standard_topology / topology_map / topology_structure / get_chains_map). The step graph -> chain -> sorted_table -> topology_id (that the id of the i-th chain is the grouping set of the i-th tree) and the chain-level tree statement are kernel-checked for n<=5 only (statement kept as FULL in Props/C14.lean); for n=6 (7 thorough) they are checked exhaustively on the real code. An independent Python oracle (recursive set partition) checks count, distinctness, leaf sets, topology_same iff equal grouping sets and the class assignment on the real code. Trusted: Lean kernel, standard axioms, harness encoding.",
+    "technique": "Lean 4 proof (induction for all n; pairwise different grouping sets for all n by a left-inverse argument; decide +kernel over the whole n<=5 enumeration for the chain level) + exhaustive differential correspondence with the implementation + independent oracle search",
 }
